@@ -158,7 +158,11 @@ SameValue(val, r) ==
 
 RoundTripClauses(r) ==
   LET tk == Tokenize(r.p)  p == tk.toks  ty == r.val.ty  vw == ViewOf(r.val) IN
-  IF ~(tk.balanced /\ JudgedT(r, p)) THEN {}
+  IF ~tk.balanced THEN {}
+  ELSE IF ~JudgedT(r, p) THEN
+       \* a pattern inside the grammar whose text is not what the symbol table prescribes for the value: the round trip is
+       \* not judged, but the rendering itself (C11's clause on this record) is
+       (IF vw.ok /\ IsText(r.s) /\ Unambiguous(p, ty, vw.v) /\ ~MatchFrom(p, 1, r.s, vw.v, ty) THEN {"C11.render"} ELSE {})
   ELSE IF r.r.k # "ok" THEN {"C12.parse_fails"}
   ELSE
    (IF r.s2 = r.s THEN {} ELSE {"C12.reformat_differs"})
